@@ -20,6 +20,9 @@ ASSUMPTIONS = [
 KF_ZERO = "C04-zero-duration"
 
 
+WITNESSES = {"C04-decode-before-cast": c04_concrete.decode_before_cast_witness}
+
+
 def searcher(ob):
     fails, n, d = c04_concrete.search(stop_at=None)
     fails = [f for f in fails if not (f["kind"] == "iso-wellformed" and f["value"] == "datetime.timedelta(0)")]
@@ -59,5 +62,7 @@ def main(tier, seed):
     if tier == "thorough" or other:
         for f in other[:3]:
             chk.violation("bounded-cross-check :: " + f["kind"], {"found": True, "kind": "c04-case", "case": f}, True)
+    chk.known_witness("C04-decode-before-cast", c04_concrete.decode_before_cast_witness,
+                      "canonical text that is itself a quoted literal (a path named '\"a\"') or reads as another enum member's value")
     chk.resolve_failures(searcher)
     return chk.finish()
